@@ -164,6 +164,20 @@ theorem scalar_finish {st : DState} {stack : List Bool} (hin : InStack st stack)
     rw [get_modify_other _ _ _ _ hne]
     exact hn.frame n (by omega) (fun p hp => by rw [hc] at hp; cases hp; exact hnle)
 
+theorem scalar_current {st : DState} (t : NType) (h1 : Heap) (cur : Nat) (hn : NewNodeOK st.h st.current t h1 cur) (b1v : Nat)
+    (c : Nat) (hc : st.current = some c) : popCurrent (h1.modify cur (fun r => { r with b1 := b1v })) cur = c := by
+  have hcur : cur < h1.size := by rw [hn.size_eq, hn.id_eq]; omega
+  have hpar : ((h1.modify cur (fun r => { r with b1 := b1v })).get cur).parent = st.current := by
+    rw [get_modify]; simp [hcur, hn.parent_eq]
+  simp only [popCurrent, hpar, hc, Option.getD_some]
+
+theorem scalar_current_none {st : DState} (t : NType) (h1 : Heap) (cur : Nat) (hn : NewNodeOK st.h st.current t h1 cur) (b1v : Nat)
+    (hc : st.current = none) : popCurrent (h1.modify cur (fun r => { r with b1 := b1v })) cur = st.h.size := by
+  have hcur : cur < h1.size := by rw [hn.size_eq, hn.id_eq]; omega
+  have hpar : ((h1.modify cur (fun r => { r with b1 := b1v })).get cur).parent = st.current := by
+    rw [get_modify]; simp [hcur, hn.parent_eq]
+  simp only [popCurrent, hpar, hc, Option.getD_none]; exact hn.id_eq
+
 /-- a container has been opened: it becomes the top of the mode stack -/
 theorem open_finish {st : DState} {stack : List Bool} (hin : InStack st stack) (k : Bool) (h1 : Heap) (cur : Nat)
     (hn : NewNodeOK st.h st.current (if k then NType.object else NType.array) h1 cur) (σ : Int) :
@@ -237,15 +251,31 @@ theorem VE.not_key {st : DState} {stack : List Bool} (h : VE st stack) : (st.cur
     obtain ⟨k, hk⟩ := Option.isSome_iff_exists.mp hs.2
     simp [hk]
 
+/-- the heap after a scalar token: a new node under `parent` with borders [a, b) -/
+def leafHeap (d : Nat) (h : Heap) (parent : Option Id) (key : Option Bytes) (t : NType) (a b : Nat) (rest : Bytes) : Heap :=
+  match Ajson.newNode h d a rest parent t key with
+  | .ok (h1, cur) => h1.modify cur (fun r => { r with b1 := b })
+  | .error _ => h
+
+/-- the heap after an opening bracket: a new container node under `parent` -/
+def openHeap (d : Nat) (h : Heap) (parent : Option Id) (key : Option Bytes) (t : NType) (a : Nat) (rest : Bytes) : Heap :=
+  match Ajson.newNode h d a rest parent t key with
+  | .ok (h1, _) => h1
+  | .error _ => h
+
 theorem step_string (d : Nat) {st : DState} {stack : List Bool} (hv : VE st stack) (r : Bytes) (i : Nat) (r1 : Bytes) (j : Nat)
     (hs : scanStringBody r (i + 1) = .ok (r1, j)) :
-    ∃ st', AV st' stack ∧ decodeRun d st (34 :: r) i = resume d st' r1 j := by
+    ∃ st', AV st' stack ∧ st'.h = leafHeap d st.h st.current st.key .string i j (34 :: r) ∧
+      (∀ c : Nat, st.current = some c → st'.current = some c) ∧ (st.current = none → st'.current = some st.h.size) ∧
+      decodeRun d st (34 :: r) i = resume d st' r1 j := by
   have hnext : nextSt st.state 34 = Gen.sST := by rw [hv.next 34 (by decide) (by decide)]; decide
   obtain ⟨h1, cur, hnn, hok⟩ := hv.newNode d i (34 :: r) .string
   have hsc := string_scanner_equiv st.state r i hnext
   rw [hs] at hsc
   obtain ⟨hsl, hj⟩ := hsc
-  refine ⟨_, scalar_finish hv.1 .string h1 cur hok j (by omega), ?_⟩
+  refine ⟨_, scalar_finish hv.1 .string h1 cur hok j (by omega), by simp only [leafHeap, hnn],
+    fun c hc => by simp only [scalar_current .string h1 cur hok j c hc],
+    fun hc => by simp only [scalar_current_none .string h1 cur hok j hc], ?_⟩
   rw [decodeRun_cons, decodeStep_eq]
   simp only [hnext, hv.not_key]
   simp only [show (Gen.sST == -1) = false by decide, show Gen.sST ≥ 0 by decide, show (Gen.sST == Gen.sST) = true by decide,
@@ -258,21 +288,27 @@ theorem step_string (d : Nat) {st : DState} {stack : List Bool} (hv : VE st stac
 theorem step_word (d : Nat) {st : DState} {stack : List Bool} (hv : VE st stack) (c : UInt8) (bs : Bytes) (i : Nat) (w : Bytes)
     (hcw : (c = 116 ∧ w = wTrue) ∨ (c = 102 ∧ w = wFalse) ∨ (c = 110 ∧ w = wNull)) (r : Bytes) (j : Nat)
     (he : expectWord w (c :: bs) i = .ok (r, j)) :
-    ∃ st', AV st' stack ∧ decodeRun d st (c :: bs) i = resume d st' r j := by
+    ∃ st', AV st' stack ∧ st'.h = leafHeap d st.h st.current st.key (if c = 110 then .null else .bool) i j (c :: bs) ∧
+      (∀ c' : Nat, st.current = some c' → st'.current = some c') ∧ (st.current = none → st'.current = some st.h.size) ∧
+      decodeRun d st (c :: bs) i = resume d st' r j := by
   have hwne : w ≠ [] := by rcases hcw with ⟨_, h⟩ | ⟨_, h⟩ | ⟨_, h⟩ <;> subst h <;> simp [wTrue, wFalse, wNull]
   have hwe := word_equiv w (c :: bs) i hwne
   rw [he] at hwe
   obtain ⟨b, hwl, hj⟩ := hwe
   have hcw' : ∃ (q : Int) (t : NType), nextSt st.state c = q ∧ (q == -1) = false ∧ q ≥ 0 ∧ (q == Gen.sST) = false ∧
       (q == Gen.sMI || q == Gen.sZE || q == Gen.sIN) = false ∧ (q == Gen.sT1 || q == Gen.sF1 || q == Gen.sN1) = true ∧
-      (if q == Gen.sT1 then (NType.bool, wTrue) else if q == Gen.sF1 then (NType.bool, wFalse) else (NType.null, wNull)) = (t, w) := by
+      (if q == Gen.sT1 then (NType.bool, wTrue) else if q == Gen.sF1 then (NType.bool, wFalse) else (NType.null, wNull)) = (t, w) ∧
+      t = (if c = 110 then NType.null else NType.bool) := by
     rcases hcw with ⟨h1, h2⟩ | ⟨h1, h2⟩ | ⟨h1, h2⟩ <;> subst h1 <;> subst h2
-    · exact ⟨Gen.sT1, .bool, by rw [hv.next 116 (by decide) (by decide)]; decide, by decide, by decide, by decide, by decide, by decide, by decide⟩
-    · exact ⟨Gen.sF1, .bool, by rw [hv.next 102 (by decide) (by decide)]; decide, by decide, by decide, by decide, by decide, by decide, by decide⟩
-    · exact ⟨Gen.sN1, .null, by rw [hv.next 110 (by decide) (by decide)]; decide, by decide, by decide, by decide, by decide, by decide, by decide⟩
-  obtain ⟨q, t, hq, q1, q2, q3, q4, q5, q6⟩ := hcw'
+    · exact ⟨Gen.sT1, .bool, by rw [hv.next 116 (by decide) (by decide)]; decide, by decide, by decide, by decide, by decide, by decide, by decide, by decide⟩
+    · exact ⟨Gen.sF1, .bool, by rw [hv.next 102 (by decide) (by decide)]; decide, by decide, by decide, by decide, by decide, by decide, by decide, by decide⟩
+    · exact ⟨Gen.sN1, .null, by rw [hv.next 110 (by decide) (by decide)]; decide, by decide, by decide, by decide, by decide, by decide, by decide, by decide⟩
+  obtain ⟨q, t, hq, q1, q2, q3, q4, q5, q6, ht⟩ := hcw'
   obtain ⟨h1, cur, hnn, hok⟩ := hv.newNode d i (c :: bs) t
-  refine ⟨_, scalar_finish hv.1 t h1 cur hok (j - 1 + 1) (by omega), ?_⟩
+  have e0 : j - 1 + 1 = j := by omega
+  refine ⟨_, scalar_finish hv.1 t h1 cur hok (j - 1 + 1) (by omega), by rw [← ht]; simp only [leafHeap, hnn, e0],
+    fun c' hc' => by simp only [scalar_current t h1 cur hok (j - 1 + 1) c' hc'],
+    fun hc' => by simp only [scalar_current_none t h1 cur hok (j - 1 + 1) hc'], ?_⟩
   rw [decodeRun_cons, decodeStep_eq]
   simp only [hq, q1, q2, q3, q4, q5, Bool.false_eq_true, if_false, if_true]
   unfold decodeWord
@@ -392,7 +428,10 @@ theorem resume_bad_follow (d : Nat) {st : DState} (hs : st.state = Gen.sOK) (c :
 
 theorem step_number (d : Nat) {st : DState} {stack : List Bool} (hv : VE st stack) (c : UInt8) (bs : Bytes) (i : Nat)
     (hc : (c == 45 || isDigit c) = true) (r1 : Bytes) (j : Nat) (hs : scanNumber (c :: bs) i = .ok (r1, j)) :
-    ∃ st', AV st' stack ∧ Same (decodeRun d st (c :: bs) i) (resume d st' r1 j) := by
+    ∃ st', AV st' stack ∧ st'.h = leafHeap d st.h st.current st.key .numeric i j (c :: bs) ∧
+      (∀ c' : Nat, st.current = some c' → st'.current = some c') ∧ (st.current = none → st'.current = some st.h.size) ∧
+      Same (decodeRun d st (c :: bs) i) (resume d st' r1 j) := by
+  have hij := scanNumber_idx _ _ _ _ hs
   have hw : isWs c = false := by
     by_cases h45 : c = 45
     · subst h45; decide
@@ -441,7 +480,9 @@ theorem step_number (d : Nat) {st : DState} {stack : List Bool} (hv : VE st stac
     -- the number is followed by a byte that cannot follow a value
     rw [hnl] at hNL
     simp only [numOut] at hNL
-    refine ⟨_, scalar_finish hv.1 .numeric h1 cur hok (j + 1) (by omega), ?_⟩
+    refine ⟨_, scalar_finish hv.1 .numeric h1 cur hok j (by omega), by simp only [leafHeap, hnn],
+      fun c' hc' => by simp only [scalar_current .numeric h1 cur hok j c' hc'],
+      fun hc' => by simp only [scalar_current_none .numeric h1 cur hok j hc'], ?_⟩
     right
     constructor
     · rw [decodeRun_cons, hstep]; unfold decodeNumber; simp only [hnn, hnl]; exact ⟨_, rfl⟩
@@ -467,7 +508,9 @@ theorem step_number (d : Nat) {st : DState} {stack : List Bool} (hv : VE st stac
         by_cases ha : (afterNum c' == -1) = true
         · simp [ha] at hNL
         · simp only [ha, Bool.false_eq_true, if_false, Option.some.injEq, Prod.mk.injEq] at hNL; exact hNL
-    refine ⟨_, scalar_finish hv.1 .numeric h1 cur hok p.idx (by omega), ?_⟩
+    refine ⟨_, scalar_finish hv.1 .numeric h1 cur hok p.idx (by omega), by simp only [leafHeap, hnn, hpr.2],
+      fun c' hc' => by simp only [scalar_current .numeric h1 cur hok p.idx c' hc'],
+      fun hc' => by simp only [scalar_current_none .numeric h1 cur hok p.idx hc'], ?_⟩
     left
     rw [decodeRun_cons, hstep]
     unfold decodeNumber
@@ -479,20 +522,24 @@ theorem step_number (d : Nat) {st : DState} {stack : List Bool} (hv : VE st stac
 
 theorem step_open_array (d : Nat) {st : DState} {stack : List Bool} (hv : VE st stack) (r : Bytes) (i : Nat) :
     ∃ st1, InStack st1 (false :: stack) ∧ st1.state = Gen.sAR ∧ st1.key = none ∧
+      st1.h = openHeap d st.h st.current st.key .array i (91 :: r) ∧ st1.current = some st.h.size ∧
       decodeRun d st (91 :: r) i = resume d st1 r (i + 1) := by
   have hnext : nextSt st.state 91 = Gen.abo := by rw [hv.next 91 (by decide) (by decide)]; decide
   obtain ⟨h1, cur, hnn, hok⟩ := hv.newNode d i (91 :: r) NType.array
-  refine ⟨{ h := h1, state := Gen.sAR, key := none, current := some cur }, open_finish hv.1 false h1 cur hok _, rfl, rfl, ?_⟩
+  refine ⟨{ h := h1, state := Gen.sAR, key := none, current := some cur }, open_finish hv.1 false h1 cur hok _, rfl, rfl,
+    by simp only [openHeap, hnn], by simp only [hok.id_eq], ?_⟩
   rw [decodeRun_cons, decodeStep_eq]
   simp only [hnext]
   simp (decide := true) only [decodeOpen, hnn, if_false, if_true, List.drop_succ_cons, List.drop_zero]
 
 theorem step_open_object (d : Nat) {st : DState} {stack : List Bool} (hv : VE st stack) (r : Bytes) (i : Nat) :
     ∃ st1, InStack st1 (true :: stack) ∧ st1.state = Gen.sOB ∧ st1.key = none ∧
+      st1.h = openHeap d st.h st.current st.key .object i (123 :: r) ∧ st1.current = some st.h.size ∧
       decodeRun d st (123 :: r) i = resume d st1 r (i + 1) := by
   have hnext : nextSt st.state 123 = Gen.aco := by rw [hv.next 123 (by decide) (by decide)]; decide
   obtain ⟨h1, cur, hnn, hok⟩ := hv.newNode d i (123 :: r) NType.object
-  refine ⟨{ h := h1, state := Gen.sOB, key := none, current := some cur }, open_finish hv.1 true h1 cur hok _, rfl, rfl, ?_⟩
+  refine ⟨{ h := h1, state := Gen.sOB, key := none, current := some cur }, open_finish hv.1 true h1 cur hok _, rfl, rfl,
+    by simp only [openHeap, hnn], by simp only [hok.id_eq], ?_⟩
   rw [decodeRun_cons, decodeStep_eq]
   simp only [hnext]
   simp (decide := true) only [decodeOpen, hnn, if_false, if_true, List.drop_succ_cons, List.drop_zero]
@@ -504,24 +551,36 @@ theorem chain_top_flags {h : Heap} {c : Nat} {k : Bool} {stack : List Bool} (hch
 
 theorem step_close_array (d : Nat) {st : DState} {stack : List Bool} (hin : InStack st (false :: stack)) (hkey : st.key = none)
     (hs : st.state = Gen.sAR ∨ st.state = Gen.sOK) (r : Bytes) (i : Nat) :
-    ∃ st', AV st' stack ∧ decodeRun d st (93 :: r) i = resume d st' r (i + 1) := by
+    ∃ st', AV st' stack ∧ (∀ c : Nat, st.current = some c → st'.h = st.h.modify c (fun r => { r with b1 := i + 1 }) ∧
+        st'.current = some (((st.h.get c).parent).getD c)) ∧
+      decodeRun d st (93 :: r) i = resume d st' r (i + 1) := by
   obtain ⟨c, hc, hch⟩ := hin.cons_current
   obtain ⟨f1, f2, f3⟩ := chain_top_flags hch
   have hnext : nextSt st.state 93 = Gen.abc := by
     rcases hs with h | h <;> rw [h]
     · rw [next_AR 93 (by decide)]; decide
     · rw [next_OK']; decide
-  refine ⟨_, close_finish hin c hc hkey (i + 1) (by omega), ?_⟩
+  refine ⟨_, close_finish hin c hc hkey (i + 1) (by omega), fun c' hc' => by
+    rw [hc] at hc'; cases hc'
+    refine ⟨rfl, ?_⟩
+    have hclt : c < st.h.size := hch.1
+    simp only [popCurrent]; rw [get_modify]; simp [hclt], ?_⟩
   rw [decodeRun_cons, decodeStep_eq]
   simp only [hnext]
   simp (decide := true) only [decodeCloseArray, hc, f2, f3, Bool.not_false, Bool.and_self, if_true, if_false, List.drop_succ_cons, List.drop_zero]
 
 theorem step_close_object (d : Nat) {st : DState} {stack : List Bool} (hin : InStack st (true :: stack)) (hkey : st.key = none)
     (hs : st.state = Gen.sOB ∨ st.state = Gen.sOK) (r : Bytes) (i : Nat) :
-    ∃ st', AV st' stack ∧ decodeRun d st (125 :: r) i = resume d st' r (i + 1) := by
+    ∃ st', AV st' stack ∧ (∀ c : Nat, st.current = some c → st'.h = st.h.modify c (fun r => { r with b1 := i + 1 }) ∧
+        st'.current = some (((st.h.get c).parent).getD c)) ∧
+      decodeRun d st (125 :: r) i = resume d st' r (i + 1) := by
   obtain ⟨c, hc, hch⟩ := hin.cons_current
   obtain ⟨f1, f2, f3⟩ := chain_top_flags hch
-  refine ⟨_, close_finish hin c hc hkey (i + 1) (by omega), ?_⟩
+  refine ⟨_, close_finish hin c hc hkey (i + 1) (by omega), fun c' hc' => by
+    rw [hc] at hc'; cases hc'
+    refine ⟨rfl, ?_⟩
+    have hclt : c < st.h.size := hch.1
+    simp only [popCurrent]; rw [get_modify]; simp [hclt], ?_⟩
   rw [decodeRun_cons, decodeStep_eq]
   rcases hs with h | h
   · have hnext : nextSt st.state 125 = Gen.aec := by rw [h, next_OB 125 (by decide)]; decide
@@ -558,7 +617,8 @@ theorem step_colon (d : Nat) {st : DState} {stack : List Bool} (hin : InStack st
 theorem step_key (d : Nat) {st : DState} {stack : List Bool} (hin : InStack st (true :: stack)) (hkey : st.key = none)
     (hs : st.state = Gen.sOB ∨ st.state = Gen.sKE) (r : Bytes) (i : Nat) (r1 : Bytes) (j : Nat)
     (hsc : scanStringBody r (i + 1) = .ok (r1, j)) :
-    ∃ k, decodeRun d st (34 :: r) i = resume d { st with state := Gen.sCO, key := some k } r1 j := by
+    ∃ k, unquoteBytes ((34 :: r).take (j - i)) 34 = some k ∧
+      decodeRun d st (34 :: r) i = resume d { st with state := Gen.sCO, key := some k } r1 j := by
   obtain ⟨c, hc, hch⟩ := hin.cons_current
   obtain ⟨f1, f2, f3⟩ := chain_top_flags hch
   have hnext : nextSt st.state 34 = Gen.sST := by
@@ -569,7 +629,7 @@ theorem step_key (d : Nat) {st : DState} {stack : List Bool} (hin : InStack st (
   rw [hsc] at hsl
   obtain ⟨hsl, hj⟩ := hsl
   obtain ⟨k, hk⟩ := unquoteBytes_valid r i r1 j hsc
-  refine ⟨k, ?_⟩
+  refine ⟨k, hk, ?_⟩
   rw [decodeRun_cons, decodeStep_eq]
   simp only [hnext]
   have hcio : st.curIsObject = true := by simp [DState.curIsObject, hc, f1]
